@@ -740,7 +740,7 @@ impl Model {
             .map(|(r, i)| format!("{}:{}", r, i))
             .collect();
         format!(
-            "list={} sel={} nopt={} mc={} clear={:?} cur={} run={} pool={}/{} rdone={} re={} pv={} dq={} dcmd={} cq={:?} q={:?}",
+            "list={} sel={} nopt={} mc={} clear={:?} cur={} run={} pool={}/{} rdone={} re={} pv={} pvn={} dq={} dcmd={} cq={:?} q={:?}",
             list.join(","),
             sel.join(","),
             self.num_options,
@@ -755,6 +755,11 @@ impl Model {
             // preview pane shown: was the most recent preview request made for the item under the cursor ("-": no pane)
             match self.previewer.as_ref() {
                 Some(p) if !self.preview_hidden => p.verif_last_item_is(&self.selection.get_current_item()).to_string(),
+                _ => "-".to_string(),
+            },
+            // preview pane shown: the number of selected items the most recent preview request was made for ("-": no pane)
+            match self.previewer.as_ref() {
+                Some(p) if !self.preview_hidden => p.verif_prev_num_selected().to_string(),
                 _ => "-".to_string(),
             },
             // what the query line shows / the command it stands for (hex), next to what the matcher and reader were given
